@@ -87,6 +87,11 @@ def run_index(ctx: core.Ctx, prop: str, p_malformed: float, only: list | None = 
                 if comp.candidate_set:
                     calls.append(('predict(index_set=candidate_set, incremental=True)',
                                   lambda: comp.predict(probe, index_set=comp.candidate_set, incremental=True)))
+                    # the look-ahead of ONE candidate (as System.refine does for each of them); the candidate is usually activated
+                    # only several activations later
+                    one_c = sorted(comp.candidate_set)[rng.randrange(len(comp.candidate_set))]
+                    calls.append(('predict(index_set={candidate}, incremental=True)',
+                                  lambda one_c=one_c: comp.predict(probe, index_set={one_c}, incremental=True)))
                 for cname, call in calls:
                     try:
                         call()
@@ -126,7 +131,12 @@ def run_index(ctx: core.Ctx, prop: str, p_malformed: float, only: list | None = 
         if fail_alpha is not None:
             res.hit('component-with-failing-fidelity')
         if prop == 'C01' and A and fail_alpha is None:
-            x, combo = _value_checks(comp, na, nd, rng, None, C, res, hist, res.failures)
+            try:
+                x, combo = _value_checks(comp, na, nd, rng, None, C, res, hist, res.failures)
+            except Exception as e:  # noqa: BLE001
+                res.failures.append({'kind': 'prediction-raised-on-the-reached-state', 'input': {'box': meta, 'requests': list(hist)},
+                                     'observed': type(e).__name__ + ': ' + str(e)[:300]})
+                C = set()
             for c in sorted(C)[:3]:
                 lines.append('idx.look ' + ic.show_idx(c))
                 ca, cb = ic.split(c, na)
@@ -316,6 +326,30 @@ def run_lifecycle(ctx: core.Ctx, res: core.Result, n: int):
                                      'observed': {'twin': m1, 'base': m2 or ic.canon_state(base)}, 'expected': {'base': frozen}})
                 break
         res.hit('state-handed-to-a-second-component')
+        # (C) the declared maxima are re-declared after the first activation (at a point where nothing has been cut off by the
+        # limits yet): the bookkeeping follows the maxima declared NOW
+        comp3 = ic.make_component(na, nd, ns, limits)
+        comp3.activate_index((0,) * na, (0,) * (nd + ns))
+        old_df = list(limits[na:na + nd])
+        new_df = [(m + 1 if rng.random() < 0.5 else (m - 1 if m >= 2 else m)) if m >= 1 else m for m in old_df]   # a zero limit HAS cut off a neighbour
+        if new_df != old_df:
+            comp3.data_fidelity = tuple(new_df)
+            lim3 = tuple(limits[:na]) + tuple(new_df) + tuple(limits[na + nd:])
+            hist3 = []
+            for _ in walk(comp3, 200, hist3):
+                msg = ic.oracle_c02(comp3, lim3) or ic.oracle_c01(comp3)
+                if msg:
+                    res.failures.append({'kind': 'bookkeeping-does-not-follow-the-re-declared-maxima',
+                                         'input': {'box': meta, 'data_fidelity_after_first_activation': new_df, 'history': list(hist3)},
+                                         'observed': msg})
+                    break
+            else:
+                A3, C3, _, _ = ic.py_sets(comp3)
+                if A3 != set(ic.full_box(lim3)):
+                    res.failures.append({'kind': 'exhaustion-does-not-fill-the-re-declared-box',
+                                         'input': {'box': meta, 'data_fidelity_after_first_activation': new_df, 'history': list(hist3)},
+                                         'observed': {'active': len(A3), 'box': len(ic.full_box(lim3))}})
+            res.hit('maxima-re-declared-after-first-activation')
         res.case(('lifecycle', meta, tuple(map(tuple, hist1 + hist2 + histb + histt))), True,
                  {'box': meta, 'clear': [hist1, hist2], 'hand_over': [histb, histt]})
 
